@@ -853,6 +853,7 @@ func init() {
 		"net.PacketConn.ReadFrom":   connCall("ReadFrom"),
 		"net.PacketConn.Close":      connCall("Close"),
 	}
+	registerEnumModels()
 }
 
 func connCall(name string) invokeFn {
